@@ -21,7 +21,9 @@
 From Coq Require Import List ZArith NArith QArith Qcanon Bool.
 Import ListNotations.
 Require Import UPV.Core.Expr UPV.Core.Eval UPV.Core.Interp UPV.Planning.Problem UPV.Planning.Sem.
-Require Import UPV.Compilers.Variants UPV.Compilers.LayerA_Defs UPV.Compilers.LayerA_Variants UPV.Compilers.LayerA_Pipe.
+Require Import UPV.Compilers.Variants UPV.Compilers.LayerA_Defs UPV.Compilers.LayerA_Quant UPV.Compilers.LayerA_Variants.
+Require Import UPV.Planning.Ground UPV.Compilers.LayerA_Ground UPV.Compilers.LayerA_Neg UPV.Compilers.LayerA_Uinr UPV.Compilers.LayerA_Utfr.
+Require Import UPV.Compilers.LayerA_Pipe.
 Local Open Scope nat_scope.
 
 (* Effect(FluentExp(fk), b, TRUE): [Variants.reset_effect fk] = bool_effect fk false (added to every meaningful action),
@@ -98,3 +100,57 @@ Definition agree_off (fk : N) (s s' : state) : Prop := forall f x, f <> fk -> s'
 (* the compiled initial state: the original one with fk = False (add_fluent(..., default_initial_value=False)) *)
 Definition with_fk (fk : N) (s : state) : state :=
   fun f x => if (f =? fk)%N then Some (VBool false) else s f x.
+
+(* ================================================================== fourth round: further stages and pipelines
+   (kept in this file because the fake-goal stage needs the definitions above) *)
+Definition gn_stages (smp : expr -> expr) (tuples : N -> list (list value)) (gnm : N -> nat -> N) (G1 : state -> Prop)
+  (nmap : list (N * N)) (rw smp2 : expr -> expr) (P : problem) : list stage :=
+  [ground_stage smp tuples gnm G1 P; ncr_stage nmap rw smp2 (ground_compile smp tuples gnm P)].
+
+(* DisjunctiveConditionsRemover with a disjunctive goal as a stage: ONE auxiliary step (the goal action).  The relation:
+   the states agree off fk, the source state lies in G and satisfies the invariants (the goal action may be applied in
+   the initial state itself), and fk is true only where the original goals hold (initially: fk = false) *)
+Definition dcrg_rel (fk : N) (G : state -> Prop) (P : problem) (s s' : state) : Prop :=
+  agree_off fk s s' /\ G s /\ invariants_ok false P s = true /\
+  (s' fk [] = Some (VBool true) -> goals_hold false P s = true).
+
+Definition dcrg_stage (cdnf : expr -> list expr) (pre_dnf : action -> list (list expr)) (nm : N -> nat -> N) (fk : N)
+  (gnm : nat -> N) (gds : list (list expr)) (G : state -> Prop) (P : problem) : stage :=
+  {| st_src := P; st_dst := dcrg_compile cdnf pre_dnf nm fk gnm gds P;
+     st_back := dcrg_back cdnf pre_dnf nm fk gnm gds P; st_aux := 1;
+     st_rel := dcrg_rel fk G P; st_okS := fun _ => True; st_okD := fun _ => True |}.
+
+(* no effect of the original problem targets fk (decidable; part of "fk is fresh") *)
+Definition orig_no_fk (fk : N) (P : problem) : bool :=
+  forallb (fun ia => forallb (fun e => negb (e_fl e =? fk)%N) (a_effs (snd ia))) (p_actions P).
+
+(* UndefinedInitialNumericRemover: names and parameters kept; the compiled state holds the companions
+   is_value_defined_f and a default where the original fluent has no value ([uinr_rel]) *)
+Definition uinr_stage (umap : list (N * N)) (P : problem) : stage :=
+  {| st_src := P; st_dst := uinr_compile umap P; st_back := fun x => Some x; st_aux := 0;
+     st_rel := uinr_rel umap; st_okS := fun _ => True; st_okD := fun _ => True |}.
+
+(* no effect of the original problem targets a companion fluent (they are fresh names; decidable) *)
+Definition orig_no_comp (umap : list (N * N)) (P : problem) : bool :=
+  forallb (fun ia => forallb (fun e => negb (is_ucomp umap (e_fl e))) (a_effs (snd ia))) (p_actions P).
+
+(* UsertypeFluentsRemover: names and parameters kept; the compiled state encodes o(x) = c as o(x, u) = (u == c)
+   ([utfr_rel]); G = the set of states of the hypotheses effects_defined / one_value / closed *)
+Definition utfr_stage (tr smp : expr -> expr) (G : state -> Prop) (Q : pstep -> Prop) (P : problem) : stage :=
+  {| st_src := P; st_dst := utfr_compile tr smp P; st_back := fun x => Some x; st_aux := 0;
+     st_rel := fun s s' => utfr_rel P s s' /\ G s; st_okS := Q; st_okD := Q |}.
+(* Q: any condition on the steps of the (common) plan that a LATER stage of a pipeline asks for; the plan is its own
+   counterpart, so the stage hands it on unchanged *)
+
+
+(* CompilersPipeline([UsertypeFluentsRemover(), QuantifiersRemover(), DisjunctiveConditionsRemover()]) with a disjunctive
+   goal — compcheck "pipeline:usertype+quantifiers+disjunctive" *)
+Definition uqd_stages (tr smp1 : expr -> expr) (G0 : state -> Prop) (smp : expr -> expr)
+  (cdnf : expr -> list expr) (pre_dnf : action -> list (list expr)) (nm : N -> nat -> N) (fk : N) (gnm : nat -> N)
+  (gds : list (list expr)) (G2 : state -> Prop) (P : problem) : list stage :=
+  [utfr_stage tr smp1 G0 (step_targets_total (utfr_compile tr smp1 P)) P;
+   quant_stage smp (utfr_compile tr smp1 P);
+   dcrg_stage cdnf pre_dnf nm fk gnm gds G2 (quant_compile smp (utfr_compile tr smp1 P))].
+Definition uqd_dst (tr smp1 smp : expr -> expr) (cdnf : expr -> list expr) (pre_dnf : action -> list (list expr))
+  (nm : N -> nat -> N) (fk : N) (gnm : nat -> N) (gds : list (list expr)) (P : problem) : problem :=
+  dcrg_compile cdnf pre_dnf nm fk gnm gds (quant_compile smp (utfr_compile tr smp1 P)).
